@@ -1,0 +1,78 @@
+//go:build verif
+// +build verif
+
+package multicast
+
+import (
+	"github.com/gauss-project/aurorafs/pkg/boson"
+)
+
+// VerifGroupEnsure creates the group if it does not exist yet (as the message
+// handlers do for an unknown group id).
+func (s *Service) VerifGroupEnsure(gid boson.Address) { s.getGroupOrCreate(gid) }
+
+// VerifGroupAdd runs the group's add transition for peer.
+func (s *Service) VerifGroupAdd(gid, peer boson.Address, keep bool) {
+	s.getGroupOrCreate(gid).add(peer, keep)
+}
+
+// VerifGroupRemove runs the group's remove transition for peer; it reports false
+// when the group does not exist.
+func (s *Service) VerifGroupRemove(gid, peer boson.Address, intoKnown bool) bool {
+	g := s.getGroup(gid)
+	if g == nil {
+		return false
+	}
+	g.remove(peer, intoKnown)
+	return true
+}
+
+// VerifGroupPruneKnown runs the group's pruneKnown transition.
+func (s *Service) VerifGroupPruneKnown(gid boson.Address) bool {
+	g := s.getGroup(gid)
+	if g == nil {
+		return false
+	}
+	g.pruneKnown()
+	return true
+}
+
+// VerifGcGroup runs one group garbage collection, as the keep-ping ticker does.
+func (s *Service) VerifGcGroup() { s.gcGroup() }
+
+// VerifGroupLists returns copies of the three peer lists of a group, read under the
+// group lock; ok is false when the group does not exist.
+func (s *Service) VerifGroupLists(gid boson.Address) (connected, kept, known []boson.Address, ok bool) {
+	g := s.getGroup(gid)
+	if g == nil {
+		return nil, nil, nil, false
+	}
+	g.mux.RLock()
+	defer g.mux.RUnlock()
+	return g.connectedPeers.BinPeers(0), g.keepPeers.BinPeers(0), g.knownPeers.BinPeers(0), true
+}
+
+// VerifGroupIDs lists the ids of all groups the service currently holds.
+func (s *Service) VerifGroupIDs() (gids []boson.Address) {
+	for _, g := range s.getGroupAll() {
+		gids = append(gids, g.gid)
+	}
+	return gids
+}
+
+// VerifGroupMuteNotify occupies the "a goroutine is already sending the group peers
+// notification" slot of every current group, so that membership transitions return
+// without the rate-limited (up to 500 ms, under the group lock) groupPeers
+// notification. Membership itself is unaffected.
+func (s *Service) VerifGroupMuteNotify() {
+	for _, g := range s.getGroupAll() {
+		select {
+		case g.groupPeersSending <- struct{}{}:
+		default:
+		}
+	}
+}
+
+// VerifKeepPing runs the handshake round of the keep-ping ticker (HandshakeAllKept
+// over all groups, connected peers included) and returns when it is complete.
+func (s *Service) VerifKeepPing() { s.HandshakeAllKept(s.getGroupAll(), true) }
